@@ -45,4 +45,7 @@ CellBrute(i, jj) ==
 ColumnMeaning == j > 0 => \A i \in 0..Len(x) : col[i + 1][1] = CellBrute(i, j - 1)
 Final == j = Len(y) + 1 => (best = BestBrute(x, y, sc) /\ best = BestClip(x, y, sc))
 Feasible == j = Len(y) + 1 => best > NEG \div 2
+\* the heavy layer (clamped arithmetic, scores near the sentinel) is the same model: it agrees with the
+\* ordinary layer on every scheme of this grid
+HeavyAgrees == j = Len(y) + 1 => BestBruteH(x, y, sc) = best
 =============================================================================
